@@ -111,7 +111,7 @@ func main() {
 		}
 		os.Exit(selftest(p))
 	case "spec":
-		gen.DictYears = dictYears(repo)
+		gen.DictYears, gen.DictBounds = dictYears(repo)
 		p := props[os.Args[2]]
 		seed, _ := strconv.ParseUint(os.Args[3], 10, 64)
 		run, _ := strconv.Atoi(os.Args[4])
@@ -185,7 +185,8 @@ func build(withGate bool) {
 	if out, err := run(root, "go", "build", "-modfile="+pmodfile, "-o", plain, "./cmd/plainworker"); err != nil {
 		die2("build plainworker on %s failed (no verdict):\n%s", repo, out)
 	}
-	gen.DictYears = dictYears(repo)
+	gen.DictYears, gen.DictBounds = dictYears(repo)
+	fmt.Printf("vsim: dictionary from the tree: %d table years, %d comparison constants %v\n", len(gen.DictYears), len(gen.DictBounds), gen.DictBounds)
 	if withGate {
 		// gate (i): the repository's own suite on the instrumented copy, simrt in pass-through
 		out, err := run(lib, "go", "test", "-vet=off", "-count=1", "-timeout", "20m", "./...")
@@ -707,8 +708,28 @@ func treeInfo() map[string]string {
 
 // dictYears collects the integer literals between 1 and 9999 that occur in integer tables (composite literals
 // with at least 8 integer elements) of the library's non-test sources: the years the code itself singles out.
-func dictYears(root string) []int {
+func dictYears(root string) ([]int, []int) {
 	seen := map[int]bool{}
+	bounds := map[int]bool{}
+	bound := func(e ast.Expr) {
+		if u, ok := e.(*ast.UnaryExpr); ok {
+			e = u.X
+		}
+		bl, ok := e.(*ast.BasicLit)
+		if !ok || bl.Kind != token.INT {
+			return
+		}
+		v, err := strconv.Atoi(bl.Value)
+		if err != nil {
+			return
+		}
+		switch {
+		case v >= 5 && v <= 9999:
+			bounds[v] = true
+		case v > 1721425 && v < 5373484:
+			bounds[int(float64(v-1721425)/365.2425)+1] = true
+		}
+	}
 	fset := token.NewFileSet()
 	filepath.Walk(root, func(p string, fi os.FileInfo, err error) error {
 		if err != nil {
@@ -728,6 +749,18 @@ func dictYears(root string) []int {
 			return nil
 		}
 		ast.Inspect(f, func(n ast.Node) bool {
+			switch x := n.(type) {
+			case *ast.BinaryExpr:
+				switch x.Op {
+				case token.EQL, token.NEQ, token.LSS, token.LEQ, token.GTR, token.GEQ:
+					bound(x.X)
+					bound(x.Y)
+				}
+			case *ast.CaseClause:
+				for _, e := range x.List {
+					bound(e)
+				}
+			}
 			cl, ok := n.(*ast.CompositeLit)
 			if !ok || len(cl.Elts) < 8 {
 				return true
@@ -756,5 +789,10 @@ func dictYears(root string) []int {
 		out = append(out, v)
 	}
 	sort.Ints(out)
-	return out
+	var bs []int
+	for v := range bounds {
+		bs = append(bs, v)
+	}
+	sort.Ints(bs)
+	return out, bs
 }
